@@ -92,6 +92,16 @@ def rule_c20(an, res):
             res.ob('R-RESET-ONLY', ok=not extra)
             if extra:
                 V(res, prop, 'R-RESET-ONLY', cm, m.key(), 'clear() does more than resetting: %s' % extra[0].kind, extra[0].site, repr(extra[0]))
+        # the per-slot fields clear() leaves as they are (and whose list nodes it re-numbers) are dead: nothing reads a slot's stored
+        # iterators before the bind that rewrites them -- the obligation that makes the 'elements' component reset-free
+        if roles.kind == 'slotvec':
+            for m2 in an.entry_points(cm):
+                if ops.kind_of(m2) in ('CLEAR', 'OBS'):
+                    continue
+                for top in method_segments(an, cm, roles, m2, res):
+                    for seg in top.all_segments():
+                        if lift.feasible(seg)[0]:
+                            check_free_slot(res, prop, cm, roles, m2, seg)
 
 
 def reset_ok(comp, effs, roles, L):
@@ -391,6 +401,36 @@ def check_once(res, prop, cm, roles, m, single, top, an):
         site = inner_clocks[0].site if inner_clocks else site_of_seg(top, m)
         V(res, prop, 'R-SIB-ONCE', cm, m.key(), 'clock sampled %s' % ('inside the range loop' if inner_clocks else '%d times (single form: %d)' % (n_top, n_single)),
           site, 'a range operation acts at one instant: one clock sample outside the loop')
+    # R-SIB-PREFIX: outside its per-element loop a range method changes nothing (ut_*: apart from the purge the single form also runs)
+    pl = set(ops.purge_loops(top)) if roles.kind == 'maplist' else set()
+    extra = [e for e in top.state_effects() if not (roles.kind == 'maplist' and e.kind == 'AUX_ERASE_RANGE')]
+    where_extra = extra[0].site if extra else None
+    for i, (lp, segs) in enumerate(top.loops):
+        if i in pl:
+            continue
+        has_body = any(ops.find_bodies(s2, m) for s2 in segs)
+        if has_body:
+            continue
+        for s2 in segs:
+            for e in s2.state_effects():
+                extra.append(e)
+                where_extra = where_extra or e.site
+    okp = not extra
+    res.ob('R-SIB-PREFIX', ok=okp)
+    if not okp:
+        V(res, prop, 'R-SIB-PREFIX', cm, m.key(), 'range method changes state outside its per-element loop: %s' % ','.join(sorted(set(e.kind for e in extra)))[:80],
+          where_extra, 'the single-key form does nothing of the kind before / after its body: %s' % [repr(e) for e in extra][:3])
+    # the returned count starts at 0 and is only stepped inside the loop
+    if ops.kind_of(m) in ('INSERT', 'ERASE') and any(lp2 for lp2, sg in top.loops):
+        var = ops.tally_var(top.ret)
+        init = ops.local_writes(top, var, decl=True) if var else []
+        post = ops.local_writes(top, var, decl=False) if var else []
+        okt = var is not None and len(init) == 1 and init[0].val == ('int', 0) and not post
+        res.ob('R-SIB-PLUMB', ok=okt)
+        if not okt:
+            V(res, prop, 'R-SIB-PLUMB', cm, m.key(), 'returned count does not start at 0 / is adjusted outside the loop', site_of_seg(top, m),
+              'returns %s; initialisation %s; writes outside the loop %s' % (show(top.ret) if top.ret is not None else None,
+                                                                            [show(e.val) for e in init], [show(e.val) for e in post]))
     # the whole loop inside one critical section (the range acts at one instant also for other threads)
     import locks
     accs, facts = locks.collect(an, cm, roles, m)
@@ -454,6 +494,8 @@ def rule_c01(an, res):
                     if not okf:
                         continue
                     check_entities(res, prop, cm, roles, m, seg)
+                    from rules_pos import check_fifo_unbind
+                    check_fifo_unbind(res, prop, cm, roles, m, seg)
                     from rules_seq import check_bind_dominated
                     check_bind_dominated(res, prop, cm, roles, m, seg)
                     if roles.name == 'rr_cache' and seg.effs('PERM_WR'):
@@ -615,6 +657,19 @@ def check_bind_update(res, prop, cm, roles, m, b):
         if not ok:
             V(res, prop, 'R-BIND-COHERENT', cm, b.where, 'update does not store the call\'s value in the slot the index names for the key',
               first_site(vs, seg, m), 'path [%s]: %s' % (val, [repr(x) for x in vs]))
+    if cls in ('NONE', 'REJECT', 'PURGE'):
+        # a write the caller is told succeeded is the "most recent successful insert or update": it must have stored the value
+        from rules_seq import ret_truth, tally_info
+        claimed = False
+        if b.in_loop is None:
+            claimed = ret_truth(seg) is True
+        else:
+            name, incs = tally_info(b.top, b)
+            claimed = name is not None and any(e.how != 'decl' and ops.is_increment(e, name) for e in incs)
+        res.ob('R-BIND-COHERENT', ok=not claimed)
+        if claimed:
+            V(res, prop, 'R-BIND-COHERENT', cm, b.where, 'insert reports success on a path that stores nothing', site_of_seg(seg, m),
+              'path [%s]: later lookups return the previous value although this write was reported successful' % val)
     if cls != 'BIND':
         return
     binds = seg.effs('BIND')
@@ -827,6 +882,8 @@ def rule_c08(an, res):
                     if not okf:
                         continue
                     check_iter_typestate(res, prop, cm, roles, m, seg)
+                    from rules_pos import check_fifo_unbind
+                    check_fifo_unbind(res, prop, cm, roles, m, seg)
                     check_free_slot(res, prop, cm, roles, m, seg)
                     check_entities(res, prop, cm, roles, m, seg)
                     if roles.name == 'rr_cache' and seg.effs('PERM_WR'):
